@@ -275,7 +275,7 @@ from multiprocessing.managers import (
 from traceback import format_exc
 
 from .context import MP_SPAWN_CTX
-from .remote_exception import RemoteException
+from .remote_exception import RemoteException, _rebuild_exception
 
 
 def get_server(address=None):
@@ -653,6 +653,10 @@ class BaseProxy(_BaseProxy_):
             kind, result = server._callmethod(
                 None, self._token.id, methodname, args, kwds
             )
+            if isinstance(result, RemoteException):
+                # This did not go through pickling, which is what turns a
+                # `RemoteException` back into the original exception object.
+                result = _rebuild_exception(result.exc, result.tb)
         else:
             try:
                 conn = self._tls.connection
